@@ -186,7 +186,8 @@ def _digit_strings(max_len):
 word_chars = st.characters(min_codepoint=33, max_codepoint=0x24F,
                            blacklist_characters=G.LINE_BREAKS + " \t\xa0\x1f",
                            blacklist_categories=("Cc", "Cs", "Zs", "Zl", "Zp"))
-_words = st.one_of(st.sampled_from(["solo", "soloend", "a=b", '"q"', "N", "S", "2", "0=N", "[x]", "{", "}"]),
+_words = st.one_of(st.sampled_from(["solo", "soloend", "a=b", '"q"', '"solo"', '"phrase_start"', '"lyric"', "N", "S",
+                                    "2", "0=N", "[x]", "{", "}"]),
                    st.text(alphabet=word_chars, min_size=1, max_size=20),
                    st.lists(st.sampled_from(G.UNICODE_ODDITIES + ["a", "Q", '"']), min_size=1, max_size=3).map("".join))
 
@@ -322,7 +323,8 @@ def _sections(draw, ctx):
             lines.append([bad, "X", None])
             if draw(st.integers(0, 5)) == 0:      # the same non-member twice in a row: two warnings
                 lines.append([bad, "X", None])
-    return {"lines": lines}
+    from cpverif import spec as S_
+    return {"lines": lines, "header": draw(st.sampled_from(S_.HEADER_LIST))}
 
 
 def strat_sections(ctx: Ctx):
@@ -338,16 +340,24 @@ def check_section(ctx: Ctx, case) -> None:
         owner = [k for k, v in refs.items() if v is not None]
         if (kind == "X" and owner) or (kind != "X" and owner != [kind]):
             raise AssertionError(f"generator label {kind} disagrees with reference {owner} for {text!r}")
+    # the very same strings may also live in [Events] (a quoted one-word E line is a global text event
+    # there and a track event here): what a line means depends on its section, not on its text
+    twins = [x[0] for x in lines if x[1] == "E" and M.ref_quoted_event(x[0]) is not None
+             and M.classify_global(M.ref_quoted_event(x[0])[1])[0] is not None]
+    ev_sorted = sorted(twins, key=lambda l: M.ref_quoted_event(l)[0])
     text = T.chart_text(192, [[0, 120000]], {})
+    if twins and len(lines) % 4 != 3:
+        text = text.replace("[Events]\n{\n", "[Events]\n{\n" + "".join(t + "\n" for t in ev_sorted), 1)
     body = "".join(x[0] + "\n" for x in lines)
-    text += "[ExpertSingle]\n{\n" + body + "}\n"
+    header = case.get("header", "ExpertSingle")
+    text += f"[{header}]\n{{\n" + body + "}\n"
     with C.capture_logs() as recs:
         try:
             chart = L.parse(text)
         except Exception as e:  # noqa: BLE001
             ctx.fail("section-parses", f"section rejected: {type(e).__name__}: {e}", rc)
             return
-    tr = T.get_track(chart, "ExpertSingle")
+    tr = T.get_track(chart, header)
     want_sp = [x[2] for x in lines if x[1] == "S"]
     want_te = [x[2] for x in lines if x[1] == "E"]
     got_sp = [[e.tick, e.sustain] for e in tr.star_power_events]
@@ -379,6 +389,6 @@ PARTS: list[Part] = [
              {"quick": 2, "thorough": 16}),
     hyp_part("mutations", strat_mutations, check_mutation, {"quick": 2000, "thorough": 35000},
              {"quick": 4, "thorough": 16}),
-    hyp_part("sections", strat_sections, check_section, {"quick": 150, "thorough": 3000},
+    hyp_part("sections", strat_sections, check_section, {"quick": 300, "thorough": 3000},
              {"quick": 4, "thorough": 16}),
 ]
